@@ -540,7 +540,12 @@ func (o *operation) handle() {
 	reqMsg := message{
 		sameCompression: sameRequestCompression,
 		sameCodec:       sameRequestCodec,
+		compressAlways:  o.serverEnveloper == nil && o.server.reqCompression != nil,
 	}
+	// An enveloped client may send any message uncompressed; a message-level
+	// decision cannot be made by merely rewriting envelopes.
+	reframeOnly := sameRequestCompression && sameRequestCodec && !mustDecodeRequest &&
+		!(reqMsg.compressAlways && o.clientEnveloper != nil)
 
 	if mustDecodeRequest {
 		// Need the message type to decode
@@ -640,7 +645,7 @@ func (o *operation) handle() {
 	case skipBody:
 		// drain any contents of body so downstream handler sees empty
 		o.drainBody(o.request.Body)
-	case sameRequestCompression && sameRequestCodec && !mustDecodeRequest:
+	case reframeOnly:
 		// we do not need to decompress or decode; just transforming envelopes
 		o.request.Body = &envelopingReader{rw: rw, r: o.request.Body}
 	default:
@@ -1268,7 +1273,11 @@ func (w *responseWriter) WriteHeader(statusCode int) {
 	sameResponseCodec := sameCodec && !w.op.clientRespNeedsPrep && !w.op.serverRespNeedsPrep
 	mustDecodeResponse := !sameResponseCodec
 
-	respMsg := message{sameCompression: true, sameCodec: sameResponseCodec}
+	respMsg := message{
+		sameCompression: true,
+		sameCodec:       sameResponseCodec,
+		compressAlways:  w.op.clientEnveloper == nil && w.op.client.respCompression != nil,
+	}
 
 	if mustDecodeResponse {
 		// We will have to decode and re-encode, so we need the message type.
@@ -1292,7 +1301,7 @@ func (w *responseWriter) WriteHeader(statusCode int) {
 	}
 
 	// Now we can define the transformed response body.
-	if sameResponseCodec && !mustDecodeResponse {
+	if sameResponseCodec && !mustDecodeResponse && !(respMsg.compressAlways && w.op.serverEnveloper != nil) {
 		// we do not need to decompress or decode
 		w.w = &envelopingWriter{rw: w, w: delegate}
 	} else {
@@ -2103,6 +2112,10 @@ type message struct {
 	// wasCompressed is true if the data was originally compressed; this can
 	// be false in a stream when the stream envelope's compressed bit is unset.
 	wasCompressed bool
+	// compressAlways is true if the message is sent without an envelope under
+	// a declared compression: with no per-message flag to say otherwise, it
+	// must be compressed even if it was not compressed when it was read.
+	compressAlways bool
 	// original size of the message on the wire, in bytes
 	size int
 
@@ -2167,7 +2180,7 @@ func (m *message) advanceToStage(op *operation, newStage messageStage) error {
 
 	// Fast path: stageRead only, buffer still in original encoding.
 	if m.stage == stageRead && newStage == stageSend && m.sameCodec &&
-		(!m.wasCompressed || m.sameCompression) {
+		(!m.wasCompressed || m.sameCompression) && (m.wasCompressed || !m.compressAlways) {
 		m.stage = newStage
 		return nil
 	}
@@ -2180,8 +2193,10 @@ func (m *message) advanceToStage(op *operation, newStage messageStage) error {
 			}
 			return m.advanceToStage(op, newStage)
 		}
-		if err := m.decompress(op); err != nil {
-			return err
+		if m.wasCompressed {
+			if err := m.decompress(op); err != nil {
+				return err
+			}
 		}
 		if err := m.compress(op); err != nil {
 			return err
@@ -2208,7 +2223,7 @@ func (m *message) advanceToStage(op *operation, newStage messageStage) error {
 				return bufferLimitError(limit)
 			}
 		}
-		if m.wasCompressed {
+		if m.wasCompressed || m.compressAlways {
 			if err := m.compress(op); err != nil {
 				return err
 			}
